@@ -876,6 +876,8 @@ def _check_normalization(ctx):
     from ..symarr import NotSymbolic
 
     prog = ctx.prog
+    ctx.rule("R13", "the kernel tables are sized for the highest angular momentum of *either* basis (the statements that size them, evaluated on bases of different height)", "sized from one basis only: exchanging the two bases raises IndexError instead of giving the transposed matrix")
+    _check_table_size(ctx, prog.func("iodata.overlap.compute_overlap"))
     ctx.rule("R12", "normalisation constants x prefactor x kernel give unit self-overlap (evaluated)", "a wrong power or double factorial in the normalisation: every overlap of d and higher functions is scaled")
     gn = prog.funcs.get("iodata.overlap.gob_cart_normalization")
     gc = prog.cls("iodata.overlap.GaussianOverlap")
@@ -927,3 +929,78 @@ def _check_normalization(ctx):
         ctx.violate("R12", f"primitive normalisation: {bad}", gn, gn.node, construct=f"normalisation identity: {bad}"[:150])
     else:
         ctx.ok("R12", f"unit self-overlap of a normalised Cartesian primitive at {npts} (exponent, powers) points", gn.where)
+
+
+def _check_table_size(ctx, co):
+    """The statements of compute_overlap between the last `convert_to_segmented` and the construction of
+    GaussianOverlap are interpreted with model bases whose highest angular momenta differ; the constructor (stubbed)
+    must be handed the larger of the two, whichever basis comes first, and the height of the one basis when there is
+    only one."""
+    from ..accessors import AccessorEval, Raised, Rec
+    from ..symarr import NotSymbolic
+
+    prog = ctx.prog
+    gc = prog.cls("iodata.overlap.GaussianOverlap")
+    shcls = prog.cls("iodata.basis.Shell")
+    bcls = prog.cls("iodata.basis.MolecularBasis")
+    body = co.body
+    iend = next((i for i, st in enumerate(body) if any(isinstance(x, ast.Call) and isinstance(x.func, ast.Name) and x.func.id == gc.name for x in ast.walk(st))), None)
+    if iend is None:
+        raise AnalysisError("compute_overlap: the construction of GaussianOverlap was not found")
+    # the statement itself and the straight-line assignments before it that feed its argument
+    def assigned(st):
+        if isinstance(st, ast.Assign):
+            return {t.id for tg in st.targets for t in (tg.elts if isinstance(tg, ast.Tuple) else [tg]) if isinstance(t, ast.Name)}
+        if isinstance(st, ast.AugAssign) and isinstance(st.target, ast.Name):
+            return {st.target.id}
+        if isinstance(st, ast.If):
+            return set().union(*[assigned(x) for x in st.body + st.orelse]) if st.body or st.orelse else set()
+        return set()
+
+    def used(st):
+        comp_targets = {t.id for c in ast.walk(st) if isinstance(c, ast.comprehension) for t in ast.walk(c.target) if isinstance(t, ast.Name)}
+        return {x.id for x in ast.walk(st) if isinstance(x, ast.Name) and isinstance(x.ctx, ast.Load)} - comp_targets
+
+    need = used(body[iend])
+    frag = [body[iend]]
+    j = iend - 1
+    while j >= 0:
+        st = body[j]
+        if assigned(st) & need:
+            frag.insert(0, st)
+            need |= used(st)
+        j -= 1
+    p0, p2 = co.posparams[0], co.posparams[2]
+
+    def basis(ls):
+        return Rec(bcls, shells=[Rec(shcls, icenter=0, angmoms=np.array([l]), kinds=["c"], exponents=np.array([1.0]), coeffs=np.array([[1.0]])) for l in ls], conventions={}, primitive_normalization="L2")
+
+    for label, l0, l1, identical, want in (("first basis s, p, d; second s", [0, 1, 2], [0], False, 2), ("first basis s; second s, p, f", [0], [0, 1, 3], False, 3), ("one basis s, d", [0, 2], None, True, 2)):
+        got = {}
+
+        def ctor(args, kw, got=got):
+            got["n"] = args[0] if args else kw.get("n_max")
+            return Rec(None, marker="go")
+
+        b0 = basis(l0)
+        b1 = None if identical else basis(l1)
+        local = dict(zip(co.posparams, [b0, np.zeros((1, 3)), b1, None if identical else np.zeros((1, 3))]))
+        ev = AccessorEval(prog, shcls, limit=4000)
+        ev.module = co.module
+        ev.stubs = {gc.qualname: ctor}
+        try:
+            ev._block(frag, local)
+        except Raised as exc:
+            ctx.violate("R13", f"compute_overlap, {label}: sizing the kernel tables raises {exc.args[0]}", co, body[iend], construct=f"table size raises: {label}")
+            return
+        except NotSymbolic as exc:
+            raise AnalysisError(f"compute_overlap: the statements that size the kernel tables are outside the evaluation whitelist: {exc}") from exc
+        n = got.get("n")
+        try:
+            n = int(n)
+        except (TypeError, ValueError):
+            raise AnalysisError(f"compute_overlap: GaussianOverlap is constructed with `{n!r}`") from None
+        if n < want:
+            ctx.violate("R13", f"compute_overlap, {label}: the kernel tables are built for angular momentum {n}, the bases go up to {want}: the pair that needs the higher entries raises IndexError (only one order of the two bases works)", co, body[iend], construct=f"table size: {label}")
+            return
+    ctx.ok("R13", "compute_overlap: GaussianOverlap is sized for the larger of the two bases' highest angular momenta, in both orders, and for the single basis", f"{co.module.relpath}:{body[iend].lineno}")
